@@ -216,6 +216,36 @@ distinct = distinct (size value, pair class) + type codes + layout headers; orac
     let mut rng = Rng::derive(ctx.seed, 10, 0);
 
     // ---- layout: distinct field values at their offsets -------------------------------------
+    // First of all, before the process has seen any header: the 256 type codes in ascending
+    // order, each handed to eight worker threads at once (whatever the library builds or extends
+    // on first sight of a code is built under contention), then judged as in the sweep below.
+    crate::ev::par_cases_pristine(ctx, 256 * 8, |i, obs| {
+        let code = (i / 8) as u8;
+        let mut h = base_header();
+        h.mtype = code;
+        obs.case(mix(201, i));
+        let replay = json!({"type_code": code, "phase": "type codes in ascending order on all worker threads at once"});
+        let b = h.encode();
+        let got = mon::catch(|| decode_message_header(&mut &b[..]).map(|d| d.message_type()));
+        match got {
+            Err(p) => obs.violation(format!("message_type() panics: {}", p.signature()), p.message, replay),
+            Ok(Err(e)) => obs.violation("decode_message_header error", format!("{e:?}"), replay),
+            Ok(Ok(mt)) => {
+                let name = format!("{:?}", mt);
+                match DEFINED.iter().find(|(c, _)| *c == code) {
+                    Some((_, want)) if &name == want => obs.count("defined_type_codes_ok_on_first_sight", 1),
+                    Some((_, want)) => obs.violation(
+                        if matches!(mt, MessageType::Unknown(_)) { "defined type code reported unknown" } else { "defined type code mapped to another type" },
+                        format!("code {} -> {}, ICD says {} (type codes in ascending order on all worker threads at once)", code, name, want),
+                        replay,
+                    ),
+                    None if mt == MessageType::Unknown(code) => obs.count("undefined_type_codes_preserved_on_first_sight", 1),
+                    None => obs.violation("undefined type code not preserved verbatim", format!("code {} -> {} (type codes in ascending order on all worker threads at once)", code, name), replay),
+                }
+            }
+        }
+    });
+
     let n_layout = ctx.tier.pick(20_000, 2_000_000);
     for i in 0..n_layout {
         if i % 128 == 1 {
